@@ -65,4 +65,11 @@ CHECKS.update({
         "technique": "symbolic execution (CrossHair + z3) of the real new_code / file_mode_for_path over an abstract text domain with an uninterpreted idempotent formatter table",
     },
 })
+CHECKS.update({
+    "C13": {
+        "text": "Inductive single step from a symbolic pre-state on a real scratch storage directory: which of 3 data items (two sharing a short hash prefix) are persisted / outsourced-but-unreferenced, which of 2 test files references which item, which file takes part, which categories are approved are symbolic bits; (a) every DiscStorage / outsource / external operation and (b) one complete real session (hooks in process) are executed from every invariant-satisfying state, and the solver confirms per path: names are the SHA-256 of the bytes, no -new file survives a session start, a persisted file appears only with an approved written reference that resolves uniquely, a persisted file disappears only under approved trim and unreferenced by participating files, missing/ambiguous prefixes raise HashError.",
+        "note": "Bound: 3 items, 2 files, suffix .txt, hash-length in {2, 12, 64}. The representation invariant assumed for pre-states is stated in evidence.assumptions; SHA-256 and the file system run for real. Histories of any length follow by induction only as far as that invariant is right. The review-mode defect repaired under C04 (613a43d) also violated this property.",
+        "technique": "symbolic execution (CrossHair + z3) of one inductive step of the real storage code / real session from a symbolic pre-state",
+    },
+})
 NOT_APPLICABLE = {}
